@@ -27,6 +27,7 @@ type Solver struct {
 	in      io.WriteCloser
 	out     *bufio.Reader
 	defined map[uint32]bool
+	stack   []*Term // conjuncts currently asserted, one push level each
 	Queries int
 	Time    time.Duration
 	NSat    int
@@ -63,10 +64,12 @@ func (s *Solver) start() {
 	s.in = in
 	s.out = bufio.NewReaderSize(out, 1<<20)
 	s.defined = map[uint32]bool{}
+	s.stack = nil
 	if s.bin == "cvc5" {
 		fmt.Fprintln(s.in, "(set-logic QF_BV)")
 	}
 	fmt.Fprintln(s.in, "(set-option :produce-models true)")
+	fmt.Fprintln(s.in, "(set-option :global-declarations true)")
 }
 
 func (s *Solver) Close() {
@@ -114,10 +117,21 @@ func (s *Solver) Check(conj []*Term, timeoutMs int) (Res, Model) {
 	} else {
 		fmt.Fprintf(&sb, "(set-option :timeout %d)\n", timeoutMs)
 	}
-	sb.WriteString("(push 1)\n")
-	for _, c := range conj {
-		sb.WriteString("(assert " + c.ref() + ")\n")
+	// incremental: keep the common prefix of the previous query asserted, one push level per conjunct
+	prefix := conj[:len(conj)-1]
+	l := 0
+	for l < len(s.stack) && l < len(prefix) && s.stack[l] == prefix[l] {
+		l++
 	}
+	if d := len(s.stack) - l; d > 0 {
+		fmt.Fprintf(&sb, "(pop %d)\n", d)
+		s.stack = s.stack[:l]
+	}
+	for _, c := range prefix[l:] {
+		sb.WriteString("(push 1)\n(assert " + c.ref() + ")\n")
+		s.stack = append(s.stack, c)
+	}
+	sb.WriteString("(push 1)\n(assert " + conj[len(conj)-1].ref() + ")\n")
 	sb.WriteString("(check-sat)\n(echo \"@@CS\")\n")
 	if s.log != nil {
 		io.WriteString(s.log, sb.String())
